@@ -14,6 +14,7 @@ EXPLANATION = (
     " Added in rounds 6 and 7: (O14.7) padding side per field type: blanks on the right whatever the class of the"
     " field. (O14.8) Reader / Writer constructed with the path of a CID. (O14.9) a row the row writer refuses"
     " after validation must not be registered by the checks (known finding)."
+    " Added in rounds 8 and 9: (O14.10) a row writer given a path closes the file it opened."
 )
 ASSUMPTIONS = ["csv.writer.writerow / stream.write emit what they are given (C12 decides the dialect side)"]
 
